@@ -261,6 +261,7 @@ func main() {
 	b.WriteString("]\n\n")
 
 	var outputs, panics, errorfs, sensitive []site
+	var floatCompares [][2]string
 	type recv struct{ typ, method, kind string }
 	var recvs []recv
 	type write struct{ fn, lhs, cat string }
@@ -370,6 +371,15 @@ func main() {
 						if x != n {
 							walk(x.Body, x)
 							return false
+						}
+					case *ast.BinaryExpr:
+						switch x.Op {
+						case token.LSS, token.LEQ, token.GTR, token.GEQ, token.EQL, token.NEQ:
+							if t := lib.info.Types[x.X].Type; t != nil {
+								if bt, ok := t.Underlying().(*types.Basic); ok && bt.Info()&types.IsFloat != 0 {
+									floatCompares = append(floatCompares, [2]string{fn, name})
+								}
+							}
 						}
 					case *ast.UnaryExpr:
 						if x.Op == token.AND {
@@ -531,6 +541,15 @@ func main() {
 	emitSites("errorfSites", "fmt.Errorf / errors.New calls: argument classes.", errorfs)
 	emitSites("sensitiveCalls", "Calls into packages that could supply non-OS-CSPRNG variability (time, math/rand, os, runtime, …) or into crypto/rand.", sensitive)
 
+	b.WriteString("/-- Comparisons between floating-point operands: file, function. A yes/no decision about a list or a\nrecipe that goes through a float is exact only up to the float's precision. -/\n")
+	b.WriteString("def floatCompares : List (String × String) := [")
+	for i, fc := range floatCompares {
+		if i > 0 {
+			b.WriteString(",")
+		}
+		fmt.Fprintf(&b, "\n  (%s, %s)", q(fc[0]), q(fc[1]))
+	}
+	b.WriteString("]\n\n")
 	b.WriteString("/-- Receiver kind of every method: type, method, value|pointer. -/\n")
 	b.WriteString("def receivers : List (String × String × String) := [")
 	for i, r := range recvs {
@@ -869,7 +888,15 @@ func (pi *pkgInfo) classifyCall(file, fn string, call *ast.CallExpr, outputs, pa
 		*errorfs = append(*errorfs, site{file, fn, callee, args(0)})
 	}
 	if i := strings.LastIndex(callee, "."); i > 0 && randomnessPkgs[callee[:i]] {
-		*sensitive = append(*sensitive, site{file, fn, callee, nil})
+		// constant string arguments are kept (the name of an environment variable, a file): the
+		// failing-input search sets / creates exactly those
+		var consts []string
+		for _, e := range call.Args {
+			if tv := pi.info.Types[e]; tv.Value != nil && tv.Value.Kind() == constant.String {
+				consts = append(consts, "str:"+constant.StringVal(tv.Value))
+			}
+		}
+		*sensitive = append(*sensitive, site{file, fn, callee, consts})
 	}
 }
 
